@@ -28,7 +28,7 @@ Definition site_table : list (string * string * string * string * just * string)
    Benign, "indices supplied by sort.SliceStable");
   ("types/events.go", "EmitTypedEvent", "index", "event.Attributes[j]",
    Benign, "indices supplied by sort.SliceStable");
-  ("x/aggregate/genesis.go", "InitGenesis", "panic", "panic(""""the aggregate module account has not been set"""")",
+  ("x/aggregate/genesis.go", "InitGenesis", "panic", "panic(""the aggregate module account has not been set"")",
    Benign, "the aggregate module account is in maccPerms");
   ("x/aggregate/keeper/evm.go", "Keeper.CallEVM", "lib", "abi.Pack(method, args...)",
    Benign, "ORACLE (trusted): go-ethereum abi.Pack on strings / addresses / uint8 and UnpackIntoInterface on contract output, ethermint ApplyMessage, account and bank keepers return a value or an error on these arguments (fields of aenv; the real ones run in the correspondence)");
@@ -38,11 +38,11 @@ Definition site_table : list (string * string * string * string * just * string)
    Benign, "ORACLE (trusted): go-ethereum abi.Pack on strings / addresses / uint8 and UnpackIntoInterface on contract output, ethermint ApplyMessage, account and bank keepers return a value or an error on these arguments (fields of aenv; the real ones run in the correspondence)");
   ("x/aggregate/keeper/evm.go", "Keeper.CallEVMWithData", "lib", "k.evmKeeper.ApplyMessage(ctx, msg, evmtypes.NewNoOpTracer(), true)",
    Benign, "ORACLE (trusted): go-ethereum abi.Pack on strings / addresses / uint8 and UnpackIntoInterface on contract output, ethermint ApplyMessage, account and bank keepers return a value or an error on these arguments (fields of aenv; the real ones run in the correspondence)");
-  ("x/aggregate/keeper/evm.go", "Keeper.QueryERC20", "lib", "erc20.UnpackIntoInterface(&decimalRes, """"decimals"""", res.Ret)",
+  ("x/aggregate/keeper/evm.go", "Keeper.QueryERC20", "lib", "erc20.UnpackIntoInterface(&decimalRes, ""decimals"", res.Ret)",
    Benign, "ORACLE (trusted): go-ethereum abi.Pack on strings / addresses / uint8 and UnpackIntoInterface on contract output, ethermint ApplyMessage, account and bank keepers return a value or an error on these arguments (fields of aenv; the real ones run in the correspondence)");
-  ("x/aggregate/keeper/evm.go", "Keeper.QueryERC20", "lib", "erc20.UnpackIntoInterface(&nameRes, """"name"""", res.Ret)",
+  ("x/aggregate/keeper/evm.go", "Keeper.QueryERC20", "lib", "erc20.UnpackIntoInterface(&nameRes, ""name"", res.Ret)",
    Benign, "ORACLE (trusted): go-ethereum abi.Pack on strings / addresses / uint8 and UnpackIntoInterface on contract output, ethermint ApplyMessage, account and bank keepers return a value or an error on these arguments (fields of aenv; the real ones run in the correspondence)");
-  ("x/aggregate/keeper/evm.go", "Keeper.QueryERC20", "lib", "erc20.UnpackIntoInterface(&symbolRes, """"symbol"""", res.Ret)",
+  ("x/aggregate/keeper/evm.go", "Keeper.QueryERC20", "lib", "erc20.UnpackIntoInterface(&symbolRes, ""symbol"", res.Ret)",
    Benign, "ORACLE (trusted): go-ethereum abi.Pack on strings / addresses / uint8 and UnpackIntoInterface on contract output, ethermint ApplyMessage, account and bank keepers return a value or an error on these arguments (fields of aenv; the real ones run in the correspondence)");
   ("x/aggregate/keeper/params.go", "Keeper.GetParams", "lib", "k.paramSpace.GetParamSet(ctx, &params)",
    Benign, "both parameters are bools, validateBool accepts every bool (no parameter value can make SetParamSet panic)");
@@ -58,7 +58,7 @@ Definition site_table : list (string * string * string * string * just * string)
    Benign, "data was made with len(Bin)+len(ctorArgs)");
   ("x/aggregate/keeper/proposals.go", "Keeper.DeployERC20Contract", "index", "data[len(erc20contracts.ERC20MinterBurnerDecimalsContract.Bin):]",
    Benign, "data was made with len(Bin)+len(ctorArgs)");
-  ("x/aggregate/keeper/proposals.go", "Keeper.DeployERC20Contract", "lib", "erc20contracts.ERC20MinterBurnerDecimalsContract.ABI.Pack( """""""", coinMetadata.Name, coinMetadata.Symbol, decimals, )",
+  ("x/aggregate/keeper/proposals.go", "Keeper.DeployERC20Contract", "lib", "erc20contracts.ERC20MinterBurnerDecimalsContract.ABI.Pack( """", coinMetadata.Name, coinMetadata.Symbol, decimals, )",
    Benign, "ORACLE (trusted): go-ethereum abi.Pack on strings / addresses / uint8 and UnpackIntoInterface on contract output, ethermint ApplyMessage, account and bank keepers return a value or an error on these arguments (fields of aenv; the real ones run in the correspondence)");
   ("x/aggregate/keeper/proposals.go", "Keeper.DeployERC20Contract", "lib", "k.accountKeeper.GetSequence(ctx, types.ModuleAddress.Bytes())",
    Benign, "ORACLE (trusted): go-ethereum abi.Pack on strings / addresses / uint8 and UnpackIntoInterface on contract output, ethermint ApplyMessage, account and bank keepers return a value or an error on these arguments (fields of aenv; the real ones run in the correspondence)");
@@ -96,11 +96,11 @@ Definition site_table : list (string * string * string * string * just * string)
    Benign, "prefix store with a one-byte prefix: the full key is never empty");
   ("x/aggregate/keeper/token_pairs.go", "Keeper.deleteTokenPair", "lib", "store.Delete(id)",
    Benign, "prefix store with a one-byte prefix: the full key is never empty");
-  ("x/aggregate/keeper/token_trace.go", "Keeper.AddERC20TraceToTransferContract", "lib", "endpointcontract.EndpointContract.ABI.Pack(""""bindToken"""", contract, originToken, originChain, scale)",
+  ("x/aggregate/keeper/token_trace.go", "Keeper.AddERC20TraceToTransferContract", "lib", "endpointcontract.EndpointContract.ABI.Pack(""bindToken"", contract, originToken, originChain, scale)",
    Benign, "ORACLE (trusted): go-ethereum abi.Pack on strings / addresses / uint8 and UnpackIntoInterface on contract output, ethermint ApplyMessage, account and bank keepers return a value or an error on these arguments (fields of aenv; the real ones run in the correspondence)");
-  ("x/aggregate/keeper/token_trace.go", "Keeper.DisableTimeBasedSupplyLimitInTransferContract", "lib", "endpointcontract.EndpointContract.ABI.Pack(""""disableTimeBasedSupplyLimit"""", erc20Address)",
+  ("x/aggregate/keeper/token_trace.go", "Keeper.DisableTimeBasedSupplyLimitInTransferContract", "lib", "endpointcontract.EndpointContract.ABI.Pack(""disableTimeBasedSupplyLimit"", erc20Address)",
    Benign, "ORACLE (trusted): go-ethereum abi.Pack on strings / addresses / uint8 and UnpackIntoInterface on contract output, ethermint ApplyMessage, account and bank keepers return a value or an error on these arguments (fields of aenv; the real ones run in the correspondence)");
-  ("x/aggregate/keeper/token_trace.go", "Keeper.EnableTimeBasedSupplyLimitInTransferContract", "lib", "endpointcontract.EndpointContract.ABI.Pack( """"enableTimeBasedSupplyLimit"""", erc20Address, timePeriod, timeBasedLimit, maxAmount, minAmount, )",
+  ("x/aggregate/keeper/token_trace.go", "Keeper.EnableTimeBasedSupplyLimitInTransferContract", "lib", "endpointcontract.EndpointContract.ABI.Pack( ""enableTimeBasedSupplyLimit"", erc20Address, timePeriod, timeBasedLimit, maxAmount, minAmount, )",
    (Guard (@limits_ok_parse)), "abi.Pack dereferences the *big.Int arguments: ValidateBasic parsed the same four strings successfully (limits_ok_parse)");
   ("x/aggregate/types/proposal.go", "validateIBC", "index", "denomSplit[0]",
    Benign, "strings.SplitN returns at least one element");
@@ -138,11 +138,11 @@ Definition site_table : list (string * string * string * string * just * string)
    Benign, "a nil amount is rejected by the IsNil test just above");
   ("x/xibc/clients/light-clients/bsc/types/bsc.go", "BlockNonce.SetBytes", "index", "b[nonceByteLength-len(d):]",
    (Guard (@validate_bsc_facts)), "reached through ToBscHeader only; Header.ValidateBasic rejects len(Bloom) > 256 and len(Nonce) > 8 before converting (validate_bsc_facts); Initialize / UpgradeState do not convert the header");
-  ("x/xibc/clients/light-clients/bsc/types/bsc.go", "BlockNonce.SetBytes", "panic", "panic(fmt.Sprintf(""""bloom bytes too big %d %d"""", len(b), len(d)))",
+  ("x/xibc/clients/light-clients/bsc/types/bsc.go", "BlockNonce.SetBytes", "panic", "panic(fmt.Sprintf(""bloom bytes too big %d %d"", len(b), len(d)))",
    (Guard (@validate_bsc_facts)), "reached through ToBscHeader only; Header.ValidateBasic rejects len(Bloom) > 256 and len(Nonce) > 8 before converting (validate_bsc_facts); Initialize / UpgradeState do not convert the header");
   ("x/xibc/clients/light-clients/bsc/types/bsc.go", "Bloom.SetBytes", "index", "b[bloomByteLength-len(d):]",
    (Guard (@validate_bsc_facts)), "reached through ToBscHeader only; Header.ValidateBasic rejects len(Bloom) > 256 and len(Nonce) > 8 before converting (validate_bsc_facts); Initialize / UpgradeState do not convert the header");
-  ("x/xibc/clients/light-clients/bsc/types/bsc.go", "Bloom.SetBytes", "panic", "panic(fmt.Sprintf(""""bloom bytes too big %d %d"""", len(b), len(d)))",
+  ("x/xibc/clients/light-clients/bsc/types/bsc.go", "Bloom.SetBytes", "panic", "panic(fmt.Sprintf(""bloom bytes too big %d %d"", len(b), len(d)))",
    (Guard (@validate_bsc_facts)), "reached through ToBscHeader only; Header.ValidateBasic rejects len(Bloom) > 256 and len(Nonce) > 8 before converting (validate_bsc_facts); Initialize / UpgradeState do not convert the header");
   ("x/xibc/clients/light-clients/bsc/types/bsc.go", "ParseValidators", "index", "extra[extraVanity : len(extra)-extraSeal]",
    (Guard (@parse_validators_safe)), "Header.ValidateBasic requires len(Extra) >= 32+65 (validate_bsc_facts), so 32 <= len-65");
@@ -164,7 +164,7 @@ Definition site_table : list (string * string * string * string * just * string)
    (Guard (@bsc_recover_safe)), "only called from ecrecover after its length test (model: bsc_recover returns Err below 65 bytes)");
   ("x/xibc/clients/light-clients/bsc/types/header.go", "encodeSigHeader", "lib", "rlp.Encode(w, []interface{}{ chainId, header.ParentHash, header.UncleHash, header.Coinbase, header.Root, header.TxHash, header.ReceiptHash, header.Bloom, header...",
    (Guard (@bsc_recover_safe)), "rlp.Encode fails only on a negative big.Int; the chain id is built with SetUint64 (non-negative), all other items are byte slices / uint64 (model: bsc_recover false never panics; the pinned behaviour is bsc_recover true, refuted)");
-  ("x/xibc/clients/light-clients/bsc/types/header.go", "encodeSigHeader", "panic", "panic(""""can't encode: """" + err.Error())",
+  ("x/xibc/clients/light-clients/bsc/types/header.go", "encodeSigHeader", "panic", "panic(""can't encode: "" + err.Error())",
    (Guard (@bsc_recover_safe)), "rlp.Encode fails only on a negative big.Int; the chain id is built with SetUint64 (non-negative), all other items are byte slices / uint64 (model: bsc_recover false never panics; the pinned behaviour is bsc_recover true, refuted)");
   ("x/xibc/clients/light-clients/bsc/types/header.go", "sealHash", "index", "hash[:0]",
    Benign, "zero-length prefix of a 32-byte array");
@@ -178,7 +178,7 @@ Definition site_table : list (string * string * string * string * just * string)
    Benign, "only called by IterateConsensusStateAscending on keys accepted by host.ParseConsensusStateKey (exact length prefix+16)");
   ("x/xibc/clients/light-clients/bsc/types/store.go", "GetHeightFromIterationKey", "index", "bigEndianBytes[8:]",
    Benign, "only called by IterateConsensusStateAscending on keys accepted by host.ParseConsensusStateKey (exact length prefix+16)");
-  ("x/xibc/clients/light-clients/bsc/types/store.go", "GetHeightFromIterationKey", "index", "iterKey[len([]byte(host.KeyConsensusStatePrefix+""""/"""")):]",
+  ("x/xibc/clients/light-clients/bsc/types/store.go", "GetHeightFromIterationKey", "index", "iterKey[len([]byte(host.KeyConsensusStatePrefix+""/"")):]",
    Benign, "only called by IterateConsensusStateAscending on keys accepted by host.ParseConsensusStateKey (exact length prefix+16)");
   ("x/xibc/clients/light-clients/bsc/types/store.go", "GetHeightFromIterationKey", "lib", "sdk.BigEndianToUint64(heightBytes)",
    Benign, "only called by IterateConsensusStateAscending on keys accepted by host.ParseConsensusStateKey (exact length prefix+16)");
@@ -218,9 +218,9 @@ Definition site_table : list (string * string * string * string * just * string)
    (Guard (@gx_init_safe)), "GenesisState.Validate has type-asserted the cached values of every listed client / consensus state (gx_validate_clients_vals)");
   ("x/xibc/core/client/genesis.go", "InitGenesis", "lib", "consState.ConsensusState.GetCachedValue()",
    (Guard (@gx_init_safe)), "GenesisState.Validate has type-asserted the cached values of every listed client / consensus state (gx_validate_clients_vals)");
-  ("x/xibc/core/client/genesis.go", "InitGenesis", "panic", "panic(""""invalid client state"""")",
+  ("x/xibc/core/client/genesis.go", "InitGenesis", "panic", "panic(""invalid client state"")",
    (Guard (@gx_init_safe)), "GenesisState.Validate has type-asserted the cached values of every listed client / consensus state (gx_validate_clients_vals)");
-  ("x/xibc/core/client/genesis.go", "InitGenesis", "panic", "panic(fmt.Sprintf(""""invalid consensus state with chain name %s at height %s"""", cs.ChainName, consState.Height))",
+  ("x/xibc/core/client/genesis.go", "InitGenesis", "panic", "panic(fmt.Sprintf(""invalid consensus state with chain name %s at height %s"", cs.ChainName, consState.Height))",
    (Guard (@gx_init_safe)), "GenesisState.Validate has type-asserted the cached values of every listed client / consensus state (gx_validate_clients_vals)");
   ("x/xibc/core/client/keeper/client.go", "Keeper.CreateClient", "nilrecv", "clientState.GetLatestHeight().String()",
    Benign, "GetLatestHeight of all four client types returns a clienttypes.Height VALUE boxed in the interface (never nil)");
@@ -266,11 +266,11 @@ Definition site_table : list (string * string * string * string * just * string)
    Benign, "guarded by the any == nil test at function entry");
   ("x/xibc/core/client/types/codec.go", "UnpackConsensusState", "lib", "any.GetCachedValue()",
    Benign, "guarded by the any == nil test at function entry");
-  ("x/xibc/core/client/types/encoding.go", "MustMarshalClientState", "panic", "panic(fmt.Errorf(""""failed to encode client state: %w"""", err))",
+  ("x/xibc/core/client/types/encoding.go", "MustMarshalClientState", "panic", "panic(fmt.Errorf(""failed to encode client state: %w"", err))",
    Benign, "the value is a decoded proto message of a registered implementation (it was unpacked from an Any of that type)");
-  ("x/xibc/core/client/types/encoding.go", "MustMarshalConsensusState", "panic", "panic(fmt.Errorf(""""failed to encode consensus state: %w"""", err))",
+  ("x/xibc/core/client/types/encoding.go", "MustMarshalConsensusState", "panic", "panic(fmt.Errorf(""failed to encode consensus state: %w"", err))",
    Benign, "the value is a decoded proto message of a registered implementation (it was unpacked from an Any of that type)");
-  ("x/xibc/core/client/types/encoding.go", "MustUnmarshalClientState", "panic", "panic(fmt.Errorf(""""failed to decode client state: %w"""", err))",
+  ("x/xibc/core/client/types/encoding.go", "MustUnmarshalClientState", "panic", "panic(fmt.Errorf(""failed to decode client state: %w"", err))",
    Benign, "the bytes under ""clientState"" are only written by SetClientState (genesis metadata of a listed client is overwritten by it)");
   ("x/xibc/core/client/types/genesis.go", "GenesisState.Validate", "lib", "client.ClientState.GetCachedValue()",
    Benign, "a nil Any panics INSIDE the validation (modelled: gx_validate = Panic), i.e. such a genesis never counts as validated");
@@ -278,7 +278,7 @@ Definition site_table : list (string * string * string * string * just * string)
    Benign, "a nil Any panics INSIDE the validation (modelled: gx_validate = Panic), i.e. such a genesis never counts as validated");
   ("x/xibc/core/client/types/height.go", "ParseChainID", "index", "splitStr[len(splitStr)-1]",
    Benign, "argument = the local chain id (ctx.ChainID()); the regexp guarantees a non-empty digit suffix; overflow of the revision number of the LOCAL chain id is a configuration assumption listed in the evidence");
-  ("x/xibc/core/client/types/height.go", "ParseChainID", "panic", "panic(fmt.Sprintf(""""regex allowed non-number value as last split element for chainID: %s"""", chainID))",
+  ("x/xibc/core/client/types/height.go", "ParseChainID", "panic", "panic(fmt.Sprintf(""regex allowed non-number value as last split element for chainID: %s"", chainID))",
    Benign, "argument = the local chain id (ctx.ChainID()); the regexp guarantees a non-empty digit suffix; overflow of the revision number of the LOCAL chain id is a configuration assumption listed in the evidence");
   ("x/xibc/core/client/types/height.go", "ParseHeight", "index", "splitStr[0]",
    Benign, "guarded by len(splitStr) != 2");
@@ -294,7 +294,7 @@ Definition site_table : list (string * string * string * string * just * string)
    Benign, "guarded by len(key) == len(prefix)+16");
   ("x/xibc/core/host/parse.go", "ParseConsensusStateKey", "lib", "binary.BigEndian.Uint64(heightBytes[:8])",
    Benign, "guarded by len(key) == len(prefix)+16");
-  ("x/xibc/core/packet/genesis.go", "InitGenesis", "panic", "panic(""""the xibc packet module account has not been set"""")",
+  ("x/xibc/core/packet/genesis.go", "InitGenesis", "panic", "panic(""the xibc packet module account has not been set"")",
    Benign, "the module account is in the application maccPerms (GetModuleAccount creates it)");
   ("x/xibc/core/packet/keeper/keeper.go", "Keeper.GetModuleAccount", "lib", "k.accountKeeper.GetModuleAccount(ctx, types.SubModuleName)",
    Benign, "xibc packet sub-module name is registered in maccPerms");
